@@ -153,6 +153,17 @@ fn pair(i: usize, a: &[u8], b: &[u8], sa: &Slot, sb: &Slot) -> Value {
         op!(o, i, "ends_with", res(guarded(|| ua.ends_with(ub)), |x| vec![1, i64::from(x)]));
         op!(o, i, "path_join", res(guarded(|| ua.path_join(ub)), |s| some_bytes(s.as_slice())));
         op!(o, i, "string_from_unixstr", res(guarded(|| UnixString::from(ub)), |s| some_bytes(s.as_slice())));
+        // the needle is a tail of the haystack's OWN memory (what path_file_name() hands out):
+        // one answer per tail start k; the definition does not care where the needle lives
+        op!(o, i, "find_tails", {
+            let raw = ub.as_slice();
+            let mut v = Vec::new();
+            for k in 0..raw.len() {
+                let tail = unsafe { UnixStr::from_bytes_unchecked(&raw[k..]) };
+                v.push(res(guarded(|| ub.find(tail)), opt_idx));
+            }
+            Value::Array(v)
+        });
         op!(o, i, "parent_path", res(guarded(|| ub.parent_path().map(|s| s.as_slice().to_vec())), opt_string));
         op!(o, i, "path_file_name", res(guarded(|| ub.path_file_name().map(|s| s.as_slice().to_vec())), opt_string));
     }
